@@ -263,8 +263,8 @@ func run(run *ev.Run) {
 						mismatchShapes[sh] = fmt.Sprintf("rule=%d latest=%d %s expected=%v got=%v", rule, latest, body, want, got)
 					}
 					run.Violate(ev.Violation{
-						Key: key(r, want, got, latest),
-						What: fmt.Sprintf("%s block=%s(%d) latest=%d rule=%d: archive expected %v, parser says %v", r.method, kindName[r.kind], r.block, latest, rule, want, got),
+						Key:    key(r, want, got, latest),
+						What:   fmt.Sprintf("%s block=%s(%d) latest=%d rule=%d: archive expected %v, parser says %v", r.method, kindName[r.kind], r.block, latest, rule, want, got),
 						Replay: map[string]interface{}{"rule": rule, "latest_block": latest, "request": body, "expected_archive": want, "got_archive": got},
 					})
 				}
